@@ -42,8 +42,9 @@ func (it *Interp) toA(s *StrV) *Term {
 		if !it.flatten(s.Boxed, &leaves) {
 			it.fail("cannot lift boxed %s value to an opaque string", s.BoxT)
 		}
-		t := App("enc!"+typeKey(s.BoxT), SStr, leaves...)
-		it.p.noteInjective("enc!"+typeKey(s.BoxT), t)
+		t := App("enc!"+s.BoxK+typeKey(s.BoxT), SStr, leaves...)
+		it.p.noteInjective("enc!"+s.BoxK+typeKey(s.BoxT), t)
+		it.strLenTerm(t)
 		return t
 	}
 	if cs, ok := s.concreteString(); ok {
@@ -82,7 +83,7 @@ func (it *Interp) lenAxioms(t, l *Term) {
 
 func (it *Interp) strEq(a, b *StrV) *Term {
 	if a.Boxed != nil && b.Boxed != nil {
-		if typeKey(a.BoxT) != typeKey(b.BoxT) {
+		if typeKey(a.BoxT) != typeKey(b.BoxT) || a.BoxK != b.BoxK {
 			return TFalse
 		}
 		return it.deepEqual(a.Boxed, b.Boxed)
